@@ -976,6 +976,28 @@ pub fn write_head_big(f: &mut F<SendRequest>) -> Result<Vec<u8>, Error> {
     Ok(out)
 }
 
+/// Write the whole head through a sequence of small, varying buffers (overflow -> try the next size).
+pub fn write_head_small(f: &mut F<SendRequest>, rng: &mut Rng) -> Result<Vec<u8>, Error> {
+    let mut out = Vec::new();
+    let mut overflow_run = 0;
+    for _ in 0..5000 {
+        if f.can_proceed() {
+            break;
+        }
+        let size = if overflow_run > 6 { BIG } else { Prof::Mixed.size(rng, 48).max(8) };
+        let mut buf = vec![0u8; size];
+        match f.write(&mut buf) {
+            Ok(n) => {
+                out.extend_from_slice(&buf[..n]);
+                overflow_run = 0;
+            }
+            Err(Error::OutputOverflow) => overflow_run += 1,
+            Err(e) => return Err(e),
+        }
+    }
+    Ok(out)
+}
+
 /// Take a flow in SendRequest whose head is complete to RecvResponse, sending `body`
 /// (big buffers), optionally skipping Await100 by giving up at once.
 pub fn to_recv_response(f: F<SendRequest>, body: &[u8]) -> Result<F<RecvResponse>, String> {
